@@ -328,6 +328,8 @@ class Ctx:
       chunks = part.chunks(self.tier, self.seed)
       jobs = [(modname, part.name, self.tier, c) for c in chunks]
       worker = _enum_shard
+      if not jobs:
+        return               # a part that does not run in this tier
     if len(jobs) == 1:
       results = [worker(jobs[0])]
     else:
